@@ -860,6 +860,39 @@ func postRestartWrites(ctx *Ctx, id, prop string, c SDCase, core *hub.Core, m *m
 	}
 	if msg := crossIndexInvariant(core); msg != "" {
 		ctx.Out.Viol(id, prop, "cross-index-"+strings.SplitN(msg, ":", 2)[0], "raw key scan after post-restart writes: "+msg, nil, nil, nil)
+		return
 	}
+	// a dataset created after the restart is empty, has a fresh feed and its own internal id:
+	// writing to it changes nothing in any other dataset
+	const newName = "created-after-restart"
+	nds, err := core.Dsm.CreateDataset(newName, nil)
+	if err != nil || nds == nil {
+		ctx.Out.Viol(id, prop, "post-restart-create-error", fmt.Sprintf("creating a dataset after the restart failed: %v", err), nil, nil, nil)
+		return
+	}
+	for _, n := range core.Dsm.GetDatasetNames() {
+		if o := core.Dsm.GetDataset(n.Name); o != nil && n.Name != newName && o.InternalID == nds.InternalID {
+			ctx.Out.Viol(id, prop, "post-restart-dataset-id-reuse", fmt.Sprintf("a dataset created after the restart got internal id %d, which dataset %s already has", nds.InternalID, n.Name), nil, nil, nil)
+			return
+		}
+	}
+	l, _ := obs.Listing(core.Store, nds, 0)
+	f, _, _ := obs.Feed(core.Store, nds, 0, nil, false)
+	if len(l) != 0 || len(f) != 0 {
+		ctx.Out.Viol(id, prop, "post-restart-new-dataset-not-empty", fmt.Sprintf("a dataset created after the restart lists %d entities and has %d changes", len(l), len(f)), 0, recStr(f), nil)
+		return
+	}
+	m.Create(newName)
+	ents := []model.Ent{gen.Entity(r, v, v.IDs[0]), gen.Entity(r, v, v.IDs[1])}
+	if err := StoreBatch(core, newName, ents, false); err != nil {
+		ctx.Out.Viol(id, prop, "post-restart-write-error", "write to a dataset created after the restart failed: "+err.Error(), nil, nil, nil)
+		return
+	}
+	m.Apply(newName, ents)
+	if d := compareWithModel(ctx, id, c, core, m, false); len(d) > 0 {
+		ctx.Out.Viol(id, prop, "post-restart-new-dataset-leaks", "after creating and writing a new dataset following the restart the hub no longer matches the model", nil, d, nil)
+		return
+	}
+	ctx.Out.Stat("post_restart_new_dataset_ok", 1)
 }
 
